@@ -391,7 +391,7 @@ func execCookie(mode string) vlib.Res {
 	bq.SetEdns0(1232, false)
 	b, _ := bq.Pack()
 	or := "ok"
-	var replyB []byte
+	var replies [][]byte
 	if mode == "tcp" {
 		t := server.VerifC10NewTCP(nil, l.Srv, 8)
 		var stream []byte
@@ -400,9 +400,10 @@ func execCookie(mode string) vlib.Res {
 			stream = append(stream, p...)
 		}
 		c := runConn(t, stream, "-", 0)
-		or = judgeStream(stream, c.out, ownSrvReply, "usrv/cookie/tcp")
-		if fr, _ := splitFrames(c.out); len(fr) == 2 {
-			replyB = fr[1]
+		var rest []byte
+		replies, rest = splitFrames(c.out)
+		if len(rest) != 0 {
+			or = fail("usrv/cookie/tcp/partial-frame", "%d stray bytes", len(rest))
 		}
 	} else {
 		rig, err := newUDPRig(l.Srv, false, 1, -1)
@@ -413,20 +414,27 @@ func execCookie(mode string) vlib.Res {
 		for i, p := range [][]byte{a, b} {
 			_, _ = rig.step([]string{"udp", "send", fmt.Sprint(i), vlib.Hex(p)})
 			_, ds := rig.step([]string{"udp", "drain"})
-			if v := rig.judge(ds, ownSrvReply); v != "ok" && or == "ok" {
-				or = strings.Replace(v, "sig=udp/", "sig=usrv/cookie/udp/", 1)
-			}
-			if i == 1 && len(ds) == 1 {
-				replyB = ds[0].b
+			for _, d := range ds {
+				if d.client != i && or == "ok" {
+					or = fail("usrv/cookie/udp/reply-to-wrong-client", "client c%d received a datagram while only c%d had a query outstanding", d.client, i)
+				}
+				replies = append(replies, d.b)
 			}
 		}
 	}
-	if or == "ok" && replyB != nil {
-		if why := whyNotOwn(b, replyB); why != "" {
-			or = fail("usrv/cookie/"+mode+"/not-own-bytes", "%s", why)
+	var replyB []byte
+	if or == "ok" && len(replies) > 2 {
+		or = fail("usrv/cookie/"+mode+"/extra-reply", "%d replies to 2 queries", len(replies))
+	}
+	for i, q := range [][]byte{a, b} {
+		if or == "ok" && i < len(replies) {
+			if why := whyNotOwn(q, replies[i]); why != "" {
+				or = fail("usrv/cookie/"+mode+"/not-own-bytes", "reply %d: %s", i+1, why)
+			}
+			replyB = replies[i]
 		}
 	}
-	return vlib.Res{Impl: fmt.Sprintf("replied=%s", vlib.B(replyB != nil)), Oracle: or, Tags: "nt"}
+	return vlib.Res{Impl: fmt.Sprintf("replied=%s", vlib.B(replyB != nil && len(replies) == 2)), Oracle: or, Tags: "nt"}
 }
 
 func execUSrv(f []string) vlib.Res {
